@@ -25,6 +25,7 @@ type c01Case struct {
 	Run2Mode string     `json:"run2_mode"`  // default | update_false | ci | clean
 	Run2Perm []int      `json:"run2_order"` // order of tests in run 2
 	Record   string     `json:"record"`     // env | option : how updating is enabled in run 1
+	Count2   int        `json:"run2_count"` // run 2 executes every test this many times (-count)
 }
 
 // genMultiCall draws a multi-entry call (MatchSnapshot / MatchJSON / MatchYAML) for config index cfg.
@@ -114,6 +115,7 @@ func genC01(t *rapid.T) c01Case {
 	c.Run2Mode = rapid.SampledFrom([]string{"default", "update_false", "ci", "clean"}).Draw(t, "mode2")
 	c.Run2Perm = rapid.Permutation(indices(ntests)).Draw(t, "perm")
 	c.Record = rapid.SampledFrom([]string{"env", "option"}).Draw(t, "record")
+	c.Count2 = rapid.SampledFrom([]int{1, 1, 1, 2, 3}).Draw(t, "count2")
 	return c
 }
 
@@ -182,7 +184,11 @@ func checkC01(c c01Case) error {
 	newProcess(mode)
 	cfgs = buildCfgs(root, c.Cfgs, upd)
 	before := snapDir(root)
-	for _, ti := range c.Run2Perm {
+	var order []int
+	for i := 0; i < max(c.Count2, 1); i++ {
+		order = append(order, c.Run2Perm...)
+	}
+	for _, ti := range order {
 		tp := c.Tests[ti]
 		ft := newFakeT(tp.Name)
 		for k, call := range tp.Calls {
@@ -243,6 +249,9 @@ func classifyC01(c c01Case) ([]string, bool) {
 	}
 	if len(c.Cfgs) > 1 {
 		cls = append(cls, "two_files")
+	}
+	if c.Count2 > 1 {
+		cls = append(cls, "replay_with_count_gt_1")
 	}
 	cls = uniq(cls)
 	return append(cls, "mode2_"+c.Run2Mode), len(cls) > 0
